@@ -151,6 +151,18 @@ func linearOf(v ssa.Value, depth int) linear {
 // sliceIdentity names the byte string a []byte value denotes: T.Bytes() and T.Len() refer to the
 // same content; otherwise the SSA value itself.
 func sliceIdentity(v ssa.Value) string {
+	// conversions between slice types of the same bytes (segmentPayload <-> []byte) are transparent
+	for {
+		if ct, ok := v.(*ssa.ChangeType); ok {
+			v = ct.X
+			continue
+		}
+		if cv, ok := v.(*ssa.Convert); ok && isByteSlice(cv.X.Type()) && isByteSlice(cv.Type()) {
+			v = cv.X
+			continue
+		}
+		break
+	}
 	if c, ok := v.(*ssa.Call); ok {
 		if sc := c.Call.StaticCallee(); sc != nil && sc.String() == "(*bytes.Buffer).Bytes" && len(c.Call.Args) == 1 {
 			return valKey(c.Call.Args[0]) + ".bytes"
